@@ -59,6 +59,11 @@ COMMENTS = {
     "enum": ((5, 0), "leading", " Genres a shelf can be dedicated to.\n"),
     "enum_value": ((5, 0, 2, 1), "detached", " Crime and mystery novels.\n"),
     "message_quote": ((4, 1), "leading", ' The answer to a request; its only field echoes the string "ok"\n'),
+    # a message without fields whose one-line comment ends in a backslash (the closing quotes must not follow it on the same line)
+    "empty_message_backslash": ((4, 3), "leading", " Asks which character separates path segments, e.g. / or \\\n"),
+    # an enum declared inside a message, and one of its values
+    "nested_enum": ((4, 0, 4, 0), "leading", " How the books on the shelf are bound.\n"),
+    "nested_enum_value": ((4, 0, 4, 0, 2, 1), "trailing", " Sewn and glued hard covers.\n"),
 }
 
 
@@ -88,6 +93,10 @@ def scenarios():
     G.add_message(fd, "Shelf", [G.F("name", 1, T.TYPE_STRING), G.F("theme", 2, T.TYPE_STRING), G.F("genre", 3, T.TYPE_ENUM, type_name=".acme.lab.v1.Genre")])
     G.add_message(fd, "Answer", [G.F("text", 1, T.TYPE_STRING)])
     G.add_message(fd, "Req", [G.F("name", 1, T.TYPE_STRING)])
+    G.add_message(fd, "Ping", [])
+    bind = fd.message_type[0].enum_type.add(name="Binding")
+    for i, nm in enumerate(("BINDING_UNSPECIFIED", "HARD", "SOFT")):
+        bind.value.add(name=nm, number=i)
     en = fd.enum_type.add(name="Genre")
     for i, nm in enumerate(("GENRE_UNSPECIFIED", "CRIME", "POETRY")):
         en.value.add(name=nm, number=i)
@@ -132,7 +141,9 @@ def scenarios():
              ("method", "acme/lab_v1/services/lab/client.py", "LabClient", "get_shelf"), ("method", "acme/lab_v1/services/lab/async_client.py", "LabAsyncClient", "get_shelf"),
              ("method_detached", "acme/lab_v1/services/lab/client.py", "LabClient", "list_shelves"),
              ("message", "acme/lab_v1/types/lab.py", "Shelf", None), ("field", "acme/lab_v1/types/lab.py", "Shelf", None), ("field_detached", "acme/lab_v1/types/lab.py", "Shelf", None),
-             ("enum", "acme/lab_v1/types/lab.py", "Genre", None), ("enum_value", "acme/lab_v1/types/lab.py", "Genre", None), ("message_quote", "acme/lab_v1/types/lab.py", "Answer", None)]
+             ("enum", "acme/lab_v1/types/lab.py", "Genre", None), ("enum_value", "acme/lab_v1/types/lab.py", "Genre", None), ("message_quote", "acme/lab_v1/types/lab.py", "Answer", None),
+             ("empty_message_backslash", "acme/lab_v1/types/lab.py", "Ping", None), ("nested_enum", "acme/lab_v1/types/lab.py", "Binding", None),
+             ("nested_enum_value", "acme/lab_v1/types/lab.py", "Binding", None)]
     for key, fname, cname, meth in sites:
         cases += 1
         doc = cls_doc(fname, cname, meth)
